@@ -215,8 +215,12 @@ fn encode_entries(dir: &Path, recursive: bool, contents: u8, inputs: &mut Vec<(S
                 if track && contents == 1 && is_template(&name) {
                     inputs.push((p.display().to_string(), false));
                 }
-                let c = std::fs::read(&p).unwrap_or_default();
-                v.push(format!("l{}:{}", hex(name.as_bytes()), hex(&c)));
+                match std::fs::read(&p) {
+                    Ok(c) => v.push(format!("l{}:{}", hex(name.as_bytes()), hex(&c))),
+                    // a link to nothing, or to a directory: not a directory for `DirEntry::file_type`, and cannot be
+                    // read — `handle_entries` gives up there if the name has a template suffix (model: `Abort.lean`)
+                    Err(_) => v.push(format!("x{}", hex(name.as_bytes()))),
+                }
             } else if p.is_dir() {
                 let t = track && recursive;
                 if t {
@@ -513,6 +517,8 @@ const GOOD_TEMPLATES: &[&str] = &[
     // several use lines, one of them repeated: each becomes the identical `use` item, in source order
     "@use std::fmt::Display;\n@use std::io::Write as _;\n@use std::fmt::Display;\n@use super::Html as Markup;\n@use std::collections::BTreeMap;\n@use std::fmt::Debug;\n@use std::fmt::Display;\n@(x: &dyn Display)\n<b>@x</b>\n",
     "@use a::b;\n@use c::d;\n@use a::b;\n@use e::f;\n@use g::h;\n@use i::j;\n@()\nrepeated uses\n",
+    // imports spelled like the markers a code generator fills in
+    "@use crate::helpers::{name};\n@use m::{args};\n@use m::{generics};\n@use m::{preamble, body};\n@(name: &str)\n<i>@name</i>\n",
 ];
 const BAD_TEMPLATES: &[&str] = &["@(\n", "@()\n@if x {", "no declaration", "@()\n@for a b {}", "@()\n\u{e9}@{x}@(", "@()\n@* \u{e5} *@ @if { x }"];
 const DIRS: &[&str] = &["sub", "admin", "a", "b2", "deep_dir", "x", "mysub"];
@@ -539,6 +545,19 @@ fn rand_tree(r: &mut Rng, depth: usize, prefix: &str, out: &mut Vec<Step>, allow
                         r.pick(&[&b"@()\n<p>caf\xe9</p>\n"[..], &b"@(a: &str)\n@a \xff\n"[..], &b"\xc3@()\nx"[..]]).to_vec()
                     } else {
                         r.pick(&[&b"@()\n@* caf\xe9 au lait *@\n<p>legacy</p>\n"[..], &b"@* \xff\xfe *@\n@(n: usize)\n@* \x80 *@<b>@n</b>\n"[..]]).to_vec()
+                    }
+                } else if r.chance(1, 9) {
+                    // templates around the sizes at which buffers, blocks and excerpts end (256, 4096, 8192 bytes), made of
+                    // two-byte characters in both parities, so that such an edge falls inside a character: generated
+                    // files of several blocks, diagnostics that quote a line of many hundred bytes
+                    let shift = if r.chance(1, 2) { "x" } else { "" };
+                    let shift2 = if r.chance(1, 2) { "y" } else { "" };
+                    if allow_bad && r.chance(1, 2) {
+                        let k = *r.pick(&[90usize, 128, 160, 300, 2100]);
+                        format!("@()\n{shift}{}@if {{ oops }}{shift2}{}\n", "\u{e9}".repeat(k), "\u{e5}".repeat(k)).into_bytes()
+                    } else {
+                        let k = *r.pick(&[120usize, 2040, 2100, 3000, 4100]);
+                        format!("@(n: usize)\n{shift}{}<b>@n</b>{shift2}{}\n", "\u{e9}".repeat(k), "\u{e5}".repeat(k / 2)).into_bytes()
                     }
                 } else if allow_bad && r.chance(1, 5) {
                     r.pick(BAD_TEMPLATES).as_bytes().to_vec()
@@ -894,6 +913,16 @@ fn tree_scenario(r: &mut Rng, twin: usize, allow_bad: bool) -> Scenario {
         steps.push(Step::Write("shared/linked.rs.html".into(), GOOD_TEMPLATES[1].as_bytes().to_vec()));
         steps.push(Step::Symlink("templates/linked.rs.html".into(), "../shared/linked.rs.html".into()));
     }
+    if allow_bad && r.chance(1, 5) {
+        // a draft that ends inside a comment, among templates that contain a comment end: whichever is read next must
+        // still be compiled from its own bytes alone
+        steps.push(Step::Write(format!("templates/{}.rs.html", r.pick(&["a_draft", "m_draft", "zz_draft"])), b"@()\n<p>draft</p>\n@* unfinished".to_vec()));
+        for stem in ["about", "contact", "news"] {
+            if r.chance(2, 3) {
+                steps.push(Step::Write(format!("templates/{stem}.rs.{}", r.pick(EXTS)), GOOD_TEMPLATES[4].as_bytes().to_vec()));
+            }
+        }
+    }
     let mut script = vec![SOp::T("templates".into())];
     if r.chance(1, 4) {
         // a second template directory compiled by the same Ructe (mail templates next to the pages): its functions
@@ -926,6 +955,62 @@ fn tree_scenario(r: &mut Rng, twin: usize, allow_bad: bool) -> Scenario {
     let mut steps = dedup_steps(steps);
     steps.push(Step::Run);
     Scenario { kind: "tree", steps, script, twin }
+}
+
+/// a template tree holding an entry that cannot be read (a symbolic link to nothing, or to a directory) under a
+/// template name: `compile_templates` gives up there with `Err`, the script goes on.  What was processed before
+/// depends on the `read_dir` order, so only the model (which is given that order) judges these runs.
+fn dead_scenario(r: &mut Rng) -> Scenario {
+    let mut steps = vec![Step::Mkdir("templates".into())];
+    rand_tree(r, 3, "templates/", &mut steps, true);
+    // directories that exist in the tree
+    let mut dirs: Vec<String> = vec!["templates".into()];
+    for st in &steps {
+        if let Step::Write(p, _) = st {
+            if let Some(i) = p.rfind('/') {
+                let d = p[..i].to_string();
+                if d.starts_with("templates") && !dirs.contains(&d) {
+                    dirs.push(d);
+                }
+            }
+        }
+    }
+    for _ in 0..1 + r.below(2) {
+        let d = dirs[r.below(dirs.len())].clone();
+        let up = "../".repeat(d.matches('/').count() + 1);
+        match r.below(4) {
+            0 => steps.push(Step::Symlink(format!("{d}/{}", r.pick(&["gone.rs.html", "a_gone.rs.svg", "zz_gone.rs.xml", "m.rs.html"])), "nowhere/at/all.rs.html".into())),
+            1 => {
+                steps.push(Step::Write("shared/adir/inner.rs.html".into(), GOOD_TEMPLATES[0].as_bytes().to_vec()));
+                steps.push(Step::Symlink(format!("{d}/{}", r.pick(&["asdir.rs.html", "k.rs.svg"])), format!("{up}shared/adir")));
+            }
+            // not a template name: never opened, as if it were not there
+            2 => steps.push(Step::Symlink(format!("{d}/{}", r.pick(&["dangling.txt", "gone.html", "README"])), "nowhere".into())),
+            _ => {
+                steps.push(Step::Mkdir("shared/bdir".into()));
+                steps.push(Step::Symlink(format!("{d}/{}", r.pick(&["linkeddir", "sub.rs"])), format!("{up}shared/bdir")));
+            }
+        }
+    }
+    let mut script = vec![SOp::T("templates".into())];
+    if r.chance(1, 3) {
+        steps.push(Step::Write(format!("mail/notice.rs.{}", r.pick(EXTS)), r.pick(GOOD_TEMPLATES).as_bytes().to_vec()));
+        if r.chance(1, 2) {
+            script.push(SOp::T("mail".into()));
+        } else {
+            script.insert(0, SOp::T("mail".into()));
+        }
+    }
+    if r.chance(1, 3) {
+        script.push(SOp::B("after.css".into(), b"body{}".to_vec()));
+    }
+    let mut steps = dedup_steps(steps);
+    steps.push(Step::Run);
+    if r.chance(1, 3) {
+        // a second run into the same OUT_DIR: the same walk, cut short at the same place
+        steps.push(Step::Run);
+    }
+    Scenario { kind: "dead", steps, script, twin: 0 }
 }
 
 fn shuffled_twin(r: &mut Rng, s: &Scenario) -> Scenario {
@@ -1062,6 +1147,12 @@ pub fn scenarios(args: &crate::Args) -> Vec<Scenario> {
             } else {
                 out.push(s);
             }
+        }
+    }
+    if want("tree") {
+        let mut r = Rng::new(args.seed, "script-dead");
+        for _ in 0..(args.n / 8).max(4) {
+            out.push(dead_scenario(&mut r));
         }
     }
     if args.mix.split(',').any(|m| m == "sassimports") {
@@ -1371,6 +1462,9 @@ fn check_tree(
 ) {
     // only for scripts whose template calls are exactly one compile_templates("templates") — plus, possibly, calls on
     // directories that do not exist (they fail and must change nothing)
+    if sc.kind == "dead" {
+        return;
+    }
     let real: Vec<&String> = sc.script.iter().filter_map(|o| if let SOp::T(d) = o { Some(d) } else { None }).filter(|d| root.join("in").join(d).is_dir()).collect();
     if real.len() != 1 || real[0] != "templates" {
         return;
@@ -1400,7 +1494,11 @@ fn check_tree(
                     if let Some(stem) = name.strip_suffix(suf) {
                         let fname = format!("{stem}_{}", &suf[4..]);
                         let content = std::fs::read(&p).unwrap_or_default();
-                        match ructe::verif_hooks::compile(&fname, &content) {
+                        // (a panic while the errors of a broken template are printed kills the build script, and with it
+                        // every other template; here it must not kill the judge: the template counts as broken, and the
+                        // consequences show in the oracles below)
+                        let compiled = std::panic::catch_unwind(|| ructe::verif_hooks::compile(&fname, &content)).unwrap_or_else(|_| Err("panicked".into()));
+                        match compiled {
                             Ok(code) => {
                                 expected.insert(outd.join(format!("template_{fname}.rs")).display().to_string(), code.into_bytes());
                                 decls.push((parent_decl_file.display().to_string(), format!("mod template_{fname};"), true));
@@ -1518,10 +1616,19 @@ fn check_tree(
             let _ = std::fs::create_dir_all(&solo_in);
             let _ = std::fs::create_dir_all(&solo_out);
             let _ = std::fs::copy(tp, solo_in.join(tp.file_name().unwrap()));
-            let ok = match ructe::Ructe::new(solo_out.clone()) {
+            let ran = std::panic::catch_unwind(|| match ructe::Ructe::new(solo_out.clone()) {
                 Ok(mut rr) => rr.compile_templates(&solo_in).is_ok(),
                 Err(_) => false,
-            };
+            });
+            if ran.is_err() {
+                // compiling this one template panics: in a build script every other template dies with it
+                fail(
+                    "[\"C10\",\"C11\"]",
+                    "compile-templates-panicked",
+                    format!("compile_templates on a directory holding just {} panics instead of reporting and skipping it", tp.display()),
+                );
+            }
+            let ok = ran.unwrap_or(false);
             if ok {
                 stats.hit("tree.solo_runs");
                 for (sp, sc_) in snapshot(&solo_out) {
